@@ -390,26 +390,6 @@ dedup_eps!(c17_dedup_eps_n3_e150, 1.5, |v: &[Vertex<f64, i32, 2>; 3], e| dedup_v
 dedup_eps!(c17_dedup_eps_n2_n3_e125, 1.25, |v: &[Vertex<f64, i32, 2>; 3], e| hooks::dedup_vertices_epsilon_n2(v.to_vec(), e));
 dedup_eps!(c17_dedup_eps_n2_n3_e150, 1.5, |v: &[Vertex<f64, i32, 2>; 3], e| hooks::dedup_vertices_epsilon_n2(v.to_vec(), e));
 
-harness! {
-    // bound: dedup_vertices_epsilon_quantized (hook), n=2, D=2, eps=1e-10, FIRST vertex not quantisable (|c|/eps >= 2^63, c any double in [1e9, 1e300]), second on the grid {-1,0,1}^2: fallback path keeps every vertex
-    #[kani::unwind(6)]
-    fn c17_dedup_eps_quantized_fallback_first_n2() {
-        let big: f64 = kani::any();
-        kani::assume(big >= 1e9 && big <= 1e300);
-        let neg: bool = kani::any();
-        let c0 = if neg { -big } else { big };
-        let v0 = Vertex::<f64, i32, 2>::new_with_uuid(Point::new([c0, 0.0]), uuid_n(1), Some(1));
-        let v1 = any_vertex_2d_g1(2);
-        let input = [v0, v1];
-        let out = hooks::dedup_vertices_epsilon_quantized(input.to_vec(), 1e-10);
-        assert!(out.len() == 2, "well-separated vertices all survive the fallback path");
-        assert!(same_vertex(&out[0], &input[0]) && same_vertex(&out[1], &input[1]) || same_vertex(&out[0], &input[1]) && same_vertex(&out[1], &input[0]),
-            "survivors are exactly the input vertices");
-        kani::cover!(neg, "negative extreme coordinate reached");
-        core::mem::forget(out);
-    }
-}
-
 // ---------------------------------------------------------------------------
 // Initial-simplex selection / reordering (n = 4, D = 2)
 // ---------------------------------------------------------------------------
